@@ -277,7 +277,7 @@ def wrapper_case(rng):
     from pytoniq_core.tlb.account import StateInit, TickTock
     from pytoniq_core.tlb.block import CurrencyCollection, ExtraCurrencyCollection
     from pytoniq_core.tlb.custom.wallet import WalletV3Data, WalletV4Data
-    k = rng.choice(["hash", "init", "cc", "w3", "w4"])
+    k = rng.choice(["hash", "init", "cc", "cc-history", "w3", "w4"])
     e = Cell.empty()
     if k == "hash":
         o, n = rng.randbytes(32), rng.randbytes(32)
@@ -290,6 +290,21 @@ def wrapper_case(rng):
         ok = b.split_depth == si.split_depth and (b.special is None) == (si.special is None) and (b.code is None) == (si.code is None) \
             and b.data.hash == e.hash and b.library is None and len(s.bits) == 0 and s.remaining_refs == 0
         return "ok" if ok else "init: StateInit round trip"
+    if k == "cc-history":
+        # a grams-only collection that later receives an extra currency must not leak it into other collections
+        first = CurrencyCollection(rng.getrandbits(40))
+        if first.other is not None and isinstance(first.other.dict, dict):
+            first.other.dict[rng.getrandbits(16)] = rng.getrandbits(30) + 1
+        g = rng.getrandbits(50)
+        second = CurrencyCollection(g)
+        s2 = second.serialize().begin_parse()
+        b = CurrencyCollection.deserialize(s2)
+        if b.grams != g or (b.other.dict or {}) != {} or second.serialize().refs:
+            return "cc-history: a fresh grams-only CurrencyCollection carries the extra currencies of an earlier one"
+        e1, e2 = ExtraCurrencyCollection({1: 2}), ExtraCurrencyCollection({})
+        if (e2.dict or {}) != {}:
+            return "cc-history: ExtraCurrencyCollection({}) is not empty"
+        return "ok"
     if k == "cc":
         d = {rng.getrandbits(32): rng.getrandbits(70) for _ in range(rng.choice([0, 1, 4]))}
         cc = CurrencyCollection(rng.getrandbits(90), ExtraCurrencyCollection(dict(d)))
